@@ -12,13 +12,16 @@ THEOREMS = ["C13_lexeme_unaffected_by_insertion", "C13_blank_insertion_same_lexe
 MODELS = ("run",)
 RULE = ("random packet programs (lib/progs.py: every builder, tunnels, time jumps, stored packets) plus hand-written "
         "multi-line ones, and failing programs derived from them (lex, parse, name, type, import, reassign, runtime "
-        "errors inserted after some packets were emitted); expression statements whose value is discarded, for every kind of "
+        "errors, calls with 2..5 undeclared / duplicated / misordered named arguments, inserted after some packets were "
+        "emitted); files that END in an unfinished lexer or parser state (pending string literal, open call, `let x =`, "
+        "`import`, unterminated string, ...); expression statements whose value is discarded, for every kind of "
         "value (bool, integers, string, address, socket, every class of object, function, method, constants), so that the "
         "warnings that print values are part of the compared stdout.  (i) every program compiled by the real binary under "
         "perturbed ambient conditions: other TZ/LANG/LC_ALL/HOME + junk variables, other cwd with relative input and "
         "output paths, explicit -o names, default --color, a later run, and two runs under an LD_PRELOAD shim that "
         "fakes clock, pid, getrandom and answers every getenv with junk; (ii) the same files alone and in batches "
-        "(several orders, sub-batches, failing files before/after, with and without -k); (iii) lexical edits (blank / "
+        "(several orders, sub-batches, failing files before/after, every unfinished-ending file before / between / after good "
+        "ones, with and without -k; inputs sharing an output path); programs with several bad argument names 8 (16) more times; (iii) lexical edits (blank / "
         "blank-space / comment lines, trailing blank space and comments, blank space at every kind of lexeme boundary "
         "incl. tab, CR, NEL, no-break and ideographic space, replaced blank runs, CRLF, final newline removed/added, and - for "
         "programs that compile - lines cut in two or joined at lexeme boundaries) "
@@ -360,16 +363,64 @@ FAILERS = {
 }
 
 
+BOGUS_NAMES = ["sendack", "fragoff", "zzz", "ttl9", "bogus", "frag_of", "qq", "win_dow", "Seq", "raw_", "a", "b", "c", "d"]
+NAMED_CALLS = [("let na_t = ipv4::tcp::flow(1.2.3.4:1, 1.2.3.5:2);", "na_t.client_message(%s\"hello\");", ["send_ack", "seq", "ack"]),
+               ("let na_u = ipv4::udp::flow(1.2.3.4:1, 1.2.3.5:2);", "na_u.client_dgram(%s\"hello\");", ["frag_off", "csum"]),
+               ("", "ipv4::datagram(1.2.3.4, 1.2.3.5, %s\"hello\");", ["id", "evil", "df", "mf", "ttl", "frag_off", "proto"]),
+               ("", "ipv4::tcp::flow(1.2.3.4:1, 1.2.3.5:2, %s);", ["cl_seq", "sv_seq", "raw"]),
+               ("", "dns::host(1.2.3.4, \"example.com\", %s);", ["ttl", "ns", "raw"])]
+
+
+def bad_named_call(r):
+    """a call with 2..5 undeclared argument names, possibly also duplicated or misordered declared ones"""
+    setup, call, declared = r.choice(NAMED_CALLS)
+    names = r.sample(BOGUS_NAMES, r.randint(2, 5))
+    args = ["%s: %s" % (n, r.choice(["1", "false", "\"v\"", "1.2.3.4"])) for n in names]
+    k = r.random()
+    if k < 0.3:                                   # a declared name twice as well
+        d = r.choice(declared)
+        args += ["%s: 1" % d, "%s: 2" % d]
+    elif k < 0.6:                                 # declared names, misordered, among the undeclared ones
+        args += ["%s: 1" % d for d in r.sample(declared, min(2, len(declared)))]
+    r.shuffle(args)
+    body = ", ".join(args) + ", "
+    if call.endswith("%s);"):
+        body = ", ".join(args)
+    return (setup + "\n" if setup else "") + call % body
+
+
 def make_failing(r, text):
-    kind = r.choice(list(FAILERS))
+    kind = r.choice(list(FAILERS) + ["named", "named"])
     L = text[:-1].split("\n")
     nimp = sum(1 for l in L if l.startswith("import "))
     i = r.randint(nimp, len(L))
     if kind == "parse" and r.random() < 0.4 and i < len(L) and L[i].endswith(";"):
         L2 = L[:i] + [L[i][:-1]] + L[i + 1:]
+    elif kind == "named":
+        L2 = L[:i] + bad_named_call(r).split("\n") + L[i:]
     else:
         L2 = L[:i] + r.choice(FAILERS[kind]).split("\n") + L[i:]
     return kind, "\n".join(L2) + "\n"
+
+
+DIRTY_HEAD = "import ipv4;\nlet dy_u = ipv4::udp::flow(1.2.3.4:1, 1.2.3.5:2);\ndy_u.client_dgram(\"first\");\n"
+DIRTY_ENDINGS = {
+    "trailing-literal": "\"dangling\"\n", "trailing-literal-no-newline": "\"dangling\"", "trailing-empty-literal": "\"\"\n",
+    "trailing-literals-two-lines": "\"a\"\n\"b\"\n", "truncated-call-after-literal": "dy_u.client_dgram(\"abc\"\n",
+    "truncated-call-after-comma": "dy_u.client_dgram(\"abc\",\n", "open-call": "dy_u.client_dgram(\n", "let-equals": "let dy_x =\n",
+    "let": "let\n", "import": "import\n", "no-semicolon": "dy_u.client_dgram(\"z\")\n", "address-colon": "let dy_s = 1.2.3.4:\n",
+    "named-arg-colon": "dy_u.client_dgram(csum:\n", "slash": "let dy_s = 1.2.3.4/\n", "module-colons": "ipv4::\n", "dot": "dy_u.\n",
+    "unterminated-string": "dy_u.client_dgram(\"abc\n", "unterminated-hex-section": "dy_u.client_dgram(\"|41 4\"\n",
+    "literal-only-file": None,
+}
+
+
+def dirty_programs():
+    out = []
+    for k, tail in DIRTY_ENDINGS.items():
+        out.append({"text": DIRTY_HEAD + tail if tail is not None else "\"only a literal\"\n", "spl": True, "expect": "any",
+                    "origin": "dirty:" + k})
+    return out
 
 
 def corpus(ctx):
@@ -392,6 +443,7 @@ def corpus(ctx):
     for i in range(n_bad):
         kind, text = make_failing(r, r.choice(valid))
         out.append({"text": text, "spl": True, "expect": kind, "origin": "failing:" + kind})
+    out += dirty_programs()
     for i, p in enumerate(out):
         p["name"] = "p%03d" % i
     return out
@@ -653,6 +705,37 @@ def ambient(ctx, d, ps, shim, chunk=24):
     return base
 
 
+def repeats(ctx, d, ps, base, times=8):
+    """programs with several undeclared / duplicated named arguments (their diagnostics name every offending argument):
+    the complete stdout of `times` more plain runs, each in a process of its own (hash seeds are per process)"""
+    sel = [p for p in ps if p["origin"] == "failing:named"]
+    if not sel:
+        return
+    sd = os.path.join(d, "src")
+    od = os.path.join(d, "out_repeat")
+    os.makedirs(od, exist_ok=True)
+    ins = [(os.path.join(sd, p["name"] + ".rsyn"),) * 2 + (os.path.join(od, p["name"] + ".pcap"),) for p in sel]
+    first = None
+    for k in range(times):
+        rc, res, so = invoke(ins, outdir=od, cwd=od, env=base_env())
+        norm = res[0]["_norm_all"]
+        for p, g in zip(sel, res):
+            ctx.count("repeat:unknown-named-arguments")
+            why = same(base[p["name"]], g)
+            if why:
+                ctx.fail("ambient:rerun", "%s: run %d of the same command differs from the first (%s)" % (p["name"], k + 2, why),
+                         replay_env(p, "the same command again (run %d)" % (k + 2), base[p["name"]], g, why))
+        if first is None:
+            first = norm
+        elif norm != first:
+            why = first_diff(first, norm)
+            ctx.fail("ambient:rerun", "%d programs with undeclared named arguments print something else in run %d (%s)"
+                     % (len(sel), k + 1, why),
+                     {"programs": {p["name"]: p["text"] for p in sel}, "order": [p["name"] for p in sel], "difference": why,
+                      "class_hint": "ambient", "how": "compile the programs on one command line several times; compare stdout"})
+    ctx.dist["repeated_runs"] = {"programs_with_undeclared_named_arguments": len(sel), "runs_each": times + 7}
+
+
 def observe(ctx, d, ps, shim):
     """what the process reads from its surroundings: an observation recorded in the evidence"""
     obs = ctx.dist.setdefault("ambient_reads_observed", {})
@@ -725,6 +808,8 @@ def batches(ctx, d, ps, base):
     bad = [p for p in ps if alone[p["name"]]["status"] == "err"]
 
     def run_batch(shape, members, keep=False):
+        # one file twice on a command line shares its output path with itself: the second is refused (shared_output covers that)
+        members = [p for k, p in enumerate(members) if all(p is not q for q in members[:k])]
         odb = os.path.join(d, "out_batch")
         shutil.rmtree(odb, ignore_errors=True)
         os.makedirs(odb)
@@ -780,6 +865,18 @@ def batches(ctx, d, ps, base):
             x = r.choice(oks)
             run_batch("same-file-after-others", r.sample([p for p in oks if p is not x], min(3, len(oks) - 1)) + [x])
             run_batch("same-file-first", [x] + r.sample([p for p in oks if p is not x], min(3, len(oks) - 1)))
+    # a file that ends in an unfinished lexer/parser state (pending literal, open call, `let x =`, ...) must not leak
+    # into the next input: before, between and after good files, and two of them in a row
+    dirty = [p for p in ps if p["origin"].startswith("dirty")]
+    clean = [p for p in oks if not p["origin"].startswith("dirty")]
+    if dirty and len(clean) >= 2:
+        for dd in dirty:
+            for _ in range(3 if ctx.thorough else 1):
+                g1, g2 = r.sample(clean, 2)
+                run_batch("dirty-first", [dd, g1, g2])
+                run_batch("dirty-between", [g1, dd, g2])
+                run_batch("dirty-last", [g1, g2, dd])
+                run_batch("two-dirty-then-good", [dd, r.choice(dirty), g1], keep=r.random() < 0.5)
     if oks:
         for k in range(3 if ctx.thorough else 1):
             a = r.choice(oks)
@@ -985,6 +1082,7 @@ def run(ctx):
                             "bytes_min_max": [min(len(p["text"]) for p in ps), max(len(p["text"]) for p in ps)],
                             "lines_max": max(p["text"].count("\n") for p in ps)}
     base = ambient(ctx, d, ps, shim)
+    repeats(ctx, d, ps, base, 16 if ctx.thorough else 8)
     observe(ctx, d, ps, shim)
     st = ctx.dist.setdefault("baseline_outcomes", {})
     for p in ps:
@@ -995,10 +1093,11 @@ def run(ctx):
             ctx.distinct(p["text"])
     ctx.dist["succeed_vs_fail"] = {"ok": sum(1 for p in ps if base[p["name"]]["status"] == "ok"),
                                    "err": sum(1 for p in ps if base[p["name"]]["status"] == "err")}
-    unexpected = [p["name"] for p in ps if (p["expect"] == "ok") != (base[p["name"]]["status"] == "ok")]
+    unexpected = [p["name"] for p in ps if p["expect"] != "any" and (p["expect"] == "ok") != (base[p["name"]]["status"] == "ok")]
     ctx.obligation("generated programs behave as intended (valid ones compile, mutated ones fail): %d of %d" %
                    (len(ps) - len(unexpected), len(ps)), len(unexpected) <= len(ps) // 10, " ".join(unexpected[:20]))
-    sub = ps if ctx.thorough else ps[:4] + ps[4::2]
+    sub = ps if ctx.thorough else ps[:4] + [p for p in ps[4::2] if not p["origin"].startswith("dirty")] + \
+        [p for p in ps if p["origin"].startswith("dirty")]
     batches(ctx, d, sub, base)
     lexical(ctx, ps, base)
     ctx.sample({"program": ps[5]["text"][:400], "baseline": base[ps[5]["name"]]["lines"], "sha256": base[ps[5]["name"]]["sha"]})
